@@ -20,6 +20,8 @@ func gen(args []string) error {
 	n := fs.Int("n", 3, "size parameter")
 	out := fs.String("out", "", "output histories (ndjson)")
 	only := fs.String("types", "", "type filter")
+	poison := fs.Int("poison", 0, "poisoned mode (see record)")
+	small := fs.Bool("small", false, "no long lists/texts")
 	fs.Parse(args)
 	d, ok := vh.Drivers[*driver]
 	if !ok {
@@ -35,7 +37,9 @@ func gen(args []string) error {
 	enc := json.NewEncoder(w)
 	g := vh.NewGen(*seed)
 	ctx := &vh.DriverCtx{G: g, N: *n, TypeFilter: vh.ParseFilter(*only)}
+	g.Small = *small
 	ctx.Run = func(ops []vh.Op) error { return enc.Encode(ops) }
+	ctx.EnablePoison(*poison, *seed)
 	return d(ctx)
 }
 
